@@ -14,6 +14,31 @@ let run () =
     | "PWV" :: steps :: st :: bad ->
         let ((p, (n1, r1)), l) = pwv_run (nat_of_int (int_of_string steps)) (z st) (List.map z bad) in
         Printf.printf "pwv %d | %d %d | %d%s\n" (int_of_z p) (int_of_nat n1) (int_of_z r1) (List.length l) (String.concat "" (List.map (fun x -> " " ^ string_of_int (int_of_z x)) l))
+    | "CRRT" :: goal :: thr :: mind :: _maxd :: k :: iters :: tseed :: bias :: rest ->
+        let rest = ref rest in
+        let next () = match !rest with x :: t -> rest := t; x | [] -> "0" in
+        let block () = let _ = next () in let n = int_of_string (next ()) in List.init n (fun _ -> next ()) in
+        let bad = List.map z (block ()) in let starts = List.map z (block ()) in let samples = List.map z (block ()) in
+        let _ = next () in let nu = int_of_string (next ()) in
+        let us = List.init nu (fun _ -> let u = next () in let n = next () in (z u, nat_of_int (int_of_string n))) in
+        let k = int_of_string k and iters = int_of_string iters and tseed = int_of_string tseed and bias = float_of_string bias in
+        let hits = List.init iters (fun q -> float_of_int ((tseed + 7 * q + 3 * q * q) mod 64) /. 64.0 < bias) in
+        let rec groups l = if l = [] then [] else
+          (let rec take n l = if n = 0 then ([], l) else (match l with x :: t -> let (a, b) = take (n - 1) t in (x :: a, b) | [] -> ([], [])) in
+           let (g, r) = take k l in match g with f :: more -> (f, more) :: groups r | [] -> []) in
+        let (tree, rep) = crrt_run bad (z goal) (z thr) (nat_of_int (int_of_string mind)) starts hits samples (groups us) in
+        Printf.printf "crrt %d;" (List.length tree);
+        List.iter (fun (x, p) -> match p with
+          | Some (pi, (u, n)) -> Printf.printf " %d %d %d %d;" (int_of_z x) (int_of_nat pi) (int_of_z u) (int_of_nat n)
+          | None -> Printf.printf " %d -1;" (int_of_z x)) tree;
+        (match rep with
+         | Some ((path, approx), dd) ->
+             Printf.printf " | 1 %d %d |" (if approx then 1 else 0) (if approx then int_of_z dd else 0);
+             List.iter (fun (e, x) -> match e with
+               | Some (u, n) -> Printf.printf " %d %d %d;" (int_of_z x) (int_of_z u) (int_of_nat n)
+               | None -> Printf.printf " %d;" (int_of_z x)) path
+         | None -> Printf.printf " | 0 |");
+        print_newline ()
     | "DCS" :: st :: tg :: rest ->
         let rec split acc = function "|" :: t -> (List.rev acc, t) | x :: t -> split (x :: acc) t | [] -> (List.rev acc, []) in
         let (bad, cands) = split [] rest in
